@@ -1056,6 +1056,14 @@ def check_struct(case, rec):
     a = _ve(tags, pos_s, fs, case["edges"], mesh_type="structured", **kws)
     b = _ve(tags, grid, _field_arg(f), case["edges"], **kwu)
     _same(rec, tags, "struct-vs-unstruct", a, b)
+    if dim > 1 and mask is None:
+        # the point list in grid shape (dim, nx, ny[, nz]) as a Fortran-ordered array (e.g. the transposed view of a
+        # coordinates-last array), the field laid out alike: the same (position, value) pairs
+        gpos = np.asfortranarray(grid.reshape((dim,) + lens))
+        gfld = np.asfortranarray(f.reshape(lens)) if nf == 1 else np.asfortranarray(f.reshape((nf,) + lens))
+        c_ = _ve(tags, gpos, gfld, case["edges"], **kwu)
+        rec.label("grid_shaped_point_list_fortran_order")
+        _same(rec, dict(tags, rel="grid_shaped_point_list"), "grid-shaped Fortran-ordered point list vs flat point list", c_, b)
     # standard_bins for both mesh types
     sb_s = lib(gs.standard_bins, _copy_pos(tuple(axes)), dim, mesh_type="structured", _tags=tags)
     sb_u = lib(gs.standard_bins, grid.copy(), dim, _tags=tags)
